@@ -778,7 +778,13 @@ pub fn signed_bitmessage_to_buf(
         true,
         metadata.op_code,
     )?;
-    debug_assert!(sig.is_none());
+    // The header counts come from the wire: a TSIG record in front of the final one (e.g. an
+    // additional count that is too large by one) is a malformed message, not a broken invariant.
+    if sig.is_some() {
+        return Err(ProtoError::from(
+            "TSIG record must be the last record of the additional section",
+        ));
+    }
     // Note the position of the decoder ahead of the final additional data TSIG record.
     let end_data = message.len() - decoder.len();
 
